@@ -7,6 +7,7 @@ use crate::queries::*;
 use crate::run::{Params, Run};
 use crate::runq::tmp_file;
 use crate::util::{hex, Rng};
+use crate::e2e;
 
 const EXTRA_TABLES: &str = "CREATE TABLE zz1(line = '(x)', line[1] => a TEXT);\nCREATE TABLE aa2(line = '(y)(z)?', line[1] => b TEXT, line[2] => c TEXT);\nCREATE TABLE mm3({.q} => q INT);";
 
@@ -97,6 +98,127 @@ pub fn child(seed: u64, n: usize) {
     for o in outputs(seed, n) { println!("{}", o); }
 }
 
+// ---------------------------------------------------------------------------------------------
+// "irrespective of which other tables are defined", on the whole program and on raw TEXTS (Props/C18Defs.lean):
+// the same query text, format and input files with definition texts that differ only in further CREATE TABLE
+// statements under OTHER names — before, after, between the statements the query uses, with different separators — must
+// give the identical answer (status, line count, printed lines). Every variant also goes to the model as an `e2e` case
+// (`Pipeline.runText`), together with the cases the sentence does not speak about and the model mirrors: a name defined
+// twice (the LAST definition is the one used), an extra definition that is rejected (the whole definition text is
+// rejected: an error, never another table), a definition text whose end swallows the next one (an unterminated comment).
+// ---------------------------------------------------------------------------------------------
+
+const EXTRA_STMTS: &[&str] = &[
+    "CREATE TABLE zz1(line = '(x)', line[1] => a TEXT);",
+    "CREATE TABLE aa2(line = '(y)(z)?', line[1] => b TEXT, line[2] => c TEXT);",
+    "CREATE TABLE mm3({.q} => q INT);",
+    "CREATE TABLE T(line = '^(.*)$', line[1] => k TEXT, line[1] => v TEXT);",   // differs from `t` in letter case: another name
+    "CREATE TABLE tt(row = split ';', row[1] => k TEXT, row[2] => v INT);",
+    "CREATE TABLE odd(line = '(x)', other[1] => a TEXT);",   // a column over a pattern that is not defined: accepted (an extraction matter)
+];
+// other definitions of the queried / joined table's NAME (not "other tables": the last definition of a name wins)
+const SHADOW_STMTS: &[&str] = &[
+    "CREATE TABLE t(line = '^([a-z]+)', line[1] => k TEXT);",
+    "CREATE TABLE t(line = '^([a-z]+)?;(-?[0-9]+)?', line[2] => v INT, line[1] => k TEXT);",
+    "CREATE TABLE u(row = '^#([a-z]+)', row[1] => k TEXT);",
+];
+// extra definitions that are not accepted: the whole text is rejected
+const BAD_STMTS: &[&str] = &[
+    "CREATE TABLE bad(line = '(', line[1] => a TEXT);",
+    "CREATE TABLE bad(line = '(x)', line[1] => a NOSUCHTYPE);",
+    "CREATE TABLE bad(line = '(x)', line[1] => a TEXT)",
+    "CREATE TABLE bad(",
+    "SELECT 1 FROM t;",
+];
+
+fn split_defs(defs: &str) -> Option<(String, String)> {
+    // the two statements of the schema of `queries.rs`, when the text was not re-laid-out
+    for main in [MAIN_DEF, MAIN_DEF_BOOL] {
+        if defs == format!("{}\n{}", main, JOIN_DEF) { return Some((main.to_owned(), JOIN_DEF.to_owned())); }
+    }
+    None
+}
+
+fn with_defs(c: &e2e::Case, defs: String, family: &'static str) -> e2e::Case {
+    e2e::Case { defs, query: c.query.clone(), format: c.format.clone(), single: c.single, files: c.files.clone(), joined: c.joined.clone(), family }
+}
+
+pub fn defs_relation(run: &mut Run, rng: &mut Rng, n: usize) {
+    let jpath = crate::runq::tmp_dir().join("c18-defs-joined.txt");
+    let jp = jpath.display().to_string();
+    let mut pairs = 0usize;
+    for _ in 0..n {
+        let base = e2e::gen_schema_case(rng, "c18", &jp);
+        let _ = std::fs::remove_file(&jpath);
+        if let Some((p, Some(b))) = &base.joined { std::fs::write(p, b).unwrap(); }
+        let base_answer = e2e::run_real(&base);
+        let mut emit = |run: &mut Run, c: &e2e::Case, answer: &str| {
+            let tag = format!("e2e:{}:{}:{}", c.family, e2e::shape(&c.query), e2e::result_kind(answer));
+            run.count(&format!("e2e:{}", c.family));
+            let desc = format!("e2e defs={:?} query={:?} format={:?} single={} files={:?} joined={:?}", c.defs, c.query, c.format, c.single,
+                c.files.iter().map(|f| String::from_utf8_lossy(f).to_string()).collect::<Vec<_>>(),
+                c.joined.as_ref().map(|(p, b)| (p.clone(), b.as_ref().map(|b| String::from_utf8_lossy(b).to_string()))));
+            run.case_with_desc(e2e::case_line(c), answer.to_owned(), tag, desc);
+        };
+        emit(run, &base, &base_answer);
+        // 1..3 unrelated extra statements, in one of the positions
+        let k = 1 + rng.below(3);
+        let extras: Vec<&str> = (0..k).map(|_| *rng.pick(EXTRA_STMTS)).collect();
+        let sep = *rng.pick(&["\n", " ", "", "\n\n", " -- more tables\n", "\r\n"]);
+        let extra_text = extras.join(sep);
+        let mut variants: Vec<(String, &'static str)> = vec![
+            (format!("{}{}{}", extra_text, sep, base.defs), "c18-extra-before"),
+            (format!("{}{}{}", base.defs, if base.defs.trim_end().ends_with(';') { sep } else { "\n" }, extra_text), "c18-extra-after"),
+        ];
+        if let Some((main, join)) = split_defs(&base.defs) {
+            variants.push((format!("{}{}{}{}{}", main, sep, extra_text, sep, join), "c18-extra-between"));
+            // interleaved: an extra statement before, between and after
+            variants.push((format!("{}{}{}{}{}{}{}{}{}", extras[0], sep, main, sep, rng.pick(EXTRA_STMTS), sep, join, sep, rng.pick(EXTRA_STMTS)), "c18-extra-interleaved"));
+            // the two statements the query uses in the other order (different names: the order of definition is immaterial)
+            variants.push((format!("{}{}{}", join, sep, main), "c18-defs-swapped"));
+        }
+        for (defs, family) in variants {
+            let v = with_defs(&base, defs, family);
+            let a = e2e::run_real(&v);
+            pairs += 1;
+            run.oracle_checks += 1;
+            // a definition text that was re-laid-out may end inside a comment: then the appended text is part of the comment
+            // and the definitions are the same — still the identical answer
+            if a != base_answer {
+                run.fail(format!("query={:?} format={:?} files={:?}\n  definitions A={:?}\n  definitions B={:?}", base.query, base.format,
+                        base.files.iter().map(|f| String::from_utf8_lossy(f).to_string()).collect::<Vec<_>>(), base.defs, v.defs),
+                    "other-tables-change-output", format!("with definitions A the program answers {} ; with definitions B (A plus CREATE TABLE statements under other names) it answers {}", base_answer, a));
+            }
+            emit(run, &v, &a);
+        }
+        // not "other tables" — correspondence only (the model: the last definition of a name wins; a rejected extra
+        // statement rejects the whole text; a text that ends inside a comment swallows what is appended up to the line end)
+        let shadow = *rng.pick(SHADOW_STMTS);
+        for (defs, family) in [
+            (format!("{}\n{}", shadow, base.defs), "c18-same-name-before"),
+            (format!("{}\n{}", base.defs, shadow), "c18-same-name-after"),
+            (format!("{}\n{}", base.defs, rng.pick(BAD_STMTS)), "c18-bad-extra-after"),
+            (format!("{}\n{}", rng.pick(BAD_STMTS), base.defs), "c18-bad-extra-before"),
+            (format!("{} -- and now{}", rng.pick(EXTRA_STMTS), base.defs), "c18-comment-swallows"),
+        ] {
+            let v = with_defs(&base, defs, family);
+            let a = e2e::run_real(&v);
+            run.oracle_checks += 1;
+            // the one thing demanded of these: a rejected extra statement never leaves a run over SOME table
+            if family.starts_with("c18-bad") && !(a.starts_with("rejected defs") || a == "not-create-table") {
+                run.fail(format!("query={:?} definitions={:?}", base.query, v.defs), "bad-definition-not-rejected", format!("a definition text with a statement that is not accepted gave {}", a));
+            }
+            // an EARLIER definition of a name that the base text defines again: by `HashMap::insert` the later one is used, so
+            // the answer is the base answer. The sentence is silent about a name defined twice; a deviation shows as a
+            // disagreement with the model, here it is only counted
+            if family == "c18-same-name-before" && a != base_answer { run.count("c18:earlier-same-name-definition-visible"); }
+            emit(run, &v, &a);
+        }
+    }
+    let _ = std::fs::remove_file(&jpath);
+    run.notes.push(format!("definition texts: {} base invocations (raw texts, every format), {} variants with unrelated extra CREATE TABLE statements before / after / between / interleaved / swapped — identical answer demanded —, and per base 5 variants outside the sentence (a name defined twice, a rejected extra statement, a comment swallowing the next statement) compared with Pipeline.runText only", n, pairs));
+}
+
 pub fn run(p: &Params) -> Run {
     let mut run = Run::new("C18");
     let n = p.n(250, 3000);
@@ -165,6 +287,7 @@ pub fn run(p: &Params) -> Run {
             Err(e) => run.notes.push(format!("child failed to run: {}", e)),
         }
     }
+    defs_relation(&mut run, &mut Rng::new(p.seed ^ 0x1818_d3f5), p.n(50, 500));
     run.notes.push("every 8th case uses tables and columns whose names differ only in letter case and statements spelling them a third way (exact name resolution: not-found errors; a hash-order fallback would differ between runs)".to_owned());
     run.notes.push(format!("{} cases executed twice in-process and once in each of {} fresh processes (fresh SipHash keys); half of the cases with three unrelated extra tables defined", n, procs));
     run
